@@ -53,7 +53,7 @@ func perms(n int) [][]int {
 
 func main() {
 	r := mc.NewRun("C05")
-	r.Rule("E5: (i) all pairs of sets of <=3 pairwise-disjoint intervals over 8 cells (every input order) for unacceptedMemRanges vs a bitmap model and the reference; (ii) images of 3 pages with firmware-volume splits {BFV 3 pages; CFV 1 + BFV 2; BFV 1 + CFV 2} + hand-off block (1 or 2 pages) + 0..2 temp-memory ranges, in every section order, every extension-attribute assignment, x RAM banks {none, each of the six GCE shapes, two synthetic lists cutting through sections} x three launch modes; MRTD and returned regions compared with the reference; non-trivial = distinct (layout, order, attributes, banks, mode) accepted by both with equal digests")
+	r.Rule("E5: (i) all pairs of sets of <=3 pairwise-disjoint intervals over 8 cells (every input order) for unacceptedMemRanges vs a bitmap model and the reference; (ii) images of 3 pages with firmware-volume splits {BFV 3 pages; CFV 1 + BFV 2; BFV 1 + CFV 2} + hand-off block (1 or 2 pages) + 0..2 temp-memory ranges, in every section order, every extension-attribute assignment, x RAM banks {none, each of the six GCE shapes, two synthetic lists cutting through sections} x three launch modes; (iii) UnsignedTDX rows for ordered shape lists x early accept; (iv) hand-off lists of 1363..2800 descriptors (one-page banks, 256 KiB hand-off section) x three modes; MRTD and returned regions compared with the reference; non-trivial = distinct (layout, order, attributes, banks, mode) accepted by both with equal digests")
 	r.Assume("the early-accept attribute below 4 GiB follows the rule documented next to the attribute in the code (not in the TDX module specification)")
 	r.Assume("validity of TDVF metadata is the precondition of the statement; digests are compared when both the implementation and the reference accept the image")
 	intervalCheck(r)
